@@ -342,7 +342,7 @@ def corpus():
 def known_signature(k, engine, case, model, spec, impl):
     """C12-gzip-substring: the implementation gzips (as the model of the code says it does) although the first
     Accept-Encoding value does not accept gzip under RFC 9110 (q=0, or 'gzip' only as a substring of another token)."""
-    if k.get("id") != "C12-gzip-substring" or engine != "c12":
+    if k.get("id") != "C12-gzip-substring" or engine not in ("c12", "c12tcp"):
         return False
     m, s, i = model.split(), spec.split(), impl.split()
     if not (len(m) == len(s) == len(i)) or m != i:
@@ -354,7 +354,7 @@ def known_signature(k, engine, case, model, spec, impl):
         if not (",gzip" in b and a == b.replace(",gzip", ",-", 1)):
             return False
     # the minimised case must actually carry an Accept-Encoding value containing "gzip"
-    return any("677a6970" in o.lower() for o in case.split(";") if o.startswith("Q "))
+    return any("677a6970" in o.lower() for o in case.split(";") if o.startswith(("Q ", "K ")))
 
 
 ENGINES = [{"name": "c12", "gen": gen, "corpus": corpus, "nontrivial": nontrivial, "classify": classify, "shards": 8}]
@@ -444,6 +444,10 @@ ENGINES.append({"name": "c12lock", "gen": gen_lock, "corpus": lambda: ["I L", "L
                 "nontrivial": lambda case, out: "blocked" in out,
                 "classify": lambda case, out: ["requests:%d" % len(case.split())] + (["info"] if "I" in case else []) + (["list"] if "L" in case else [])})
 EXTRAS = [regrace, statelock]
+
+# ---------------------------------------------------------------- raw bytes over TCP to the HTTP server of a running pipeline
+from props import c12tcp_common  # noqa: E402
+ENGINES.append(c12tcp_common.engine())
 
 LEVEL_TEXT = ("Concurrency: for all thread sets and all schedules of the step model of Resources::register (mutex, load, build, store, release; owners dropping "
               "processors at any moment) the live entries equal a sequential register/drop history, so no request can tell the difference, every returned "
